@@ -726,6 +726,10 @@ def r13_5(model: Model, rep: Report) -> None:
         table.append(("R13.4", f"{DSL}._get_free_variables", "free_variables", {"expression": EX}, (), "free-variables",
                       "the free variables of an expression: a sum binds its ranges, products and fractions have the free variables of all their parts, a leaf "
                       "has the variables it mentions (Expression.conditional normalises over exactly these)"))
+    if f"{DSL}._ranges_subscript_children" in model.functions:
+        VS = ("iter", ("cls", f"{DSL}.Variable"))
+        table.append(("R13.3", f"{DSL}._ranges_subscript_children", "ranges_subscript_children", {"ranges": VS, "children": VS}, (), "no-capture-test",
+                      "a summed variable subscripts the joint as soon as ONE intervention of ONE counterfactual child carries its name"))
     run_table(model, rep, table, "yvref.c13", mk, sa, construct=construct, loc=loc)
 
 
